@@ -238,9 +238,14 @@ static int c09_witness_ok(const work_item_t *l)
 	return 1;
 }
 
+/* opaque user pointers: any address inside a dummy object (the pool never
+ * dereferences them; only their identity matters) */
+static char g_blob[64];
 static void *c09_nd_ptr(const char *tag)
 {
-	return (void *)(uintptr_t)verif_nd_u64(tag);
+	uint8_t k = verif_nd_u8(tag);
+
+	return k < 64 ? (void *)&g_blob[k] : NULL;
 }
 
 /* ------------------------------------------------- INV as an assertion set */
